@@ -40,7 +40,7 @@ def reference(h: H.History, real_out):
     basis_nm_attr = h.n_modes
     last_fit_ok = False
     prev_obs = None
-    for op, (status, obs) in zip(h.ops, real_out):
+    for op_index, (op, (status, obs)) in enumerate(zip(h.ops, real_out)):
         ok = status == "ok"
         if not ok and op[0] in ("fit", "upd") and prev_obs is not None and any(
                 obs[k] != prev_obs[k] for k in ("bm", "bnm", "snm", "rank", "ns")):
@@ -64,7 +64,7 @@ def reference(h: H.History, real_out):
                 snm = int(v)
                 # did this call refit the basis (path 3)?  yes iff basis.n_basis_modes is now v and data was given
                 if di is not None and obs["bnm"] == int(v) and (obs["bm"] is not None) and obs["bm"][0] == h.datasets[di].shape[1] \
-                        and _path3(h, op, real_out):
+                        and _path3(h, op_index, real_out):
                     nm_setting = int(v)
                     final_data = h.datasets[di]
                 last_fit_ok = True
@@ -83,10 +83,10 @@ def reference(h: H.History, real_out):
     return {"B": np.array(B), "lead": rk[: min(B.shape)], "nf": B.shape[0], "X": final_data}
 
 
-def _path3(h, op, real_out):
+def _path3(h, idx, real_out):
     """whether the update call at `op` went through the refit branch: decided by replaying the branch condition
     on the observations *before* the call"""
-    idx = h.ops.index(op)
+    op = h.ops[idx]
     prev = real_out[idx - 1][1] if idx > 0 else None
     v = int(op[1])
     if prev is None or prev["bm"] is None:
